@@ -1527,3 +1527,35 @@ pub fn pawnrow(own: u8, f: Sink) {
         }
     }
 }
+
+// ---------------------------------------------------------------------------------------------
+// COUNTS: many men of one kind per side
+
+/// Kings on e1 / e8 (and on a1 / h8), n white men of kind kw filling the board from a2 upwards, m
+/// black men of kind kb from h7 downwards, for every pair of kinds {P, N, B, R, Q}, n, m in
+/// 0..=15, both sides to move: more than eight pawns, many promoted pieces, sixteen men a side.
+pub fn counts(f: Sink) {
+    for &(wk, bk) in &[(4usize, 60usize), (0, 63)] {
+        for &kw in &[P, N, B, R, Q] {
+            for &kb in &[P, N, B, R, Q] {
+                for n in 0..=15usize {
+                    for m in 0..=15usize {
+                        for stm in 0..2u8 {
+                            let mut p = Pos::empty();
+                            p.stm = stm;
+                            p.b[wk] = K;
+                            p.b[bk] = K | BLACK;
+                            for i in 0..n {
+                                p.b[8 + i] = kw;
+                            }
+                            for i in 0..m {
+                                p.b[55 - i] = mk(1, kb);
+                            }
+                            emit_if_valid(&p, f);
+                        }
+                    }
+                }
+            }
+        }
+    }
+}
